@@ -321,7 +321,7 @@ def store_cases(ctx):
         for k, args in ((0, False), (1, True), (12, False)):
             cases.append({"cap": 64, "args": args, "mode": "kill", "ops": [("E", k, 1010, 5, 6)], "sync": [False], "e": e,
                           "end": None, "close": None, "directed": "first-hook-call"})
-    for _ in range(ctx.n(40, 1200)):
+    for _ in range(ctx.n(40, 800)):
         cases.append(gen_case(rng))
     return cases
 
@@ -563,7 +563,7 @@ def multi_verdict(ctx, cases, results, res):
 
 def run_multi(ctx, rec_exe, prod_exe, f0):
     rng = ctx.rng
-    cases = [gen_multi_case(rng) for _ in range(ctx.n(20, 300))]
+    cases = [gen_multi_case(rng) for _ in range(ctx.n(20, 160))]
     work = os.path.join(ctx.scratch, "multi")
     os.makedirs(work, exist_ok=True)
     t0 = time.time()
@@ -1130,7 +1130,7 @@ def run_e2e(ctx, objdir):
     work = os.path.join(ctx.scratch, "e2e")
     os.makedirs(work)
     progs = []
-    for pi in range(ctx.n(3, 12)):
+    for pi in range(ctx.n(3, 9)):
         nth = [0, 2, 1, 3][pi % 4]
         big = (pi % 3 == 2)
         for attempt in range(40):
@@ -1150,7 +1150,7 @@ def run_e2e(ctx, objdir):
     cases = []
     hows = ["sigkill", "segv", "abort", "_exit", "execv", "exit", "finish", "sigfinish",
             "sigterm", "sigfpe", "exec_untraced", "exec_fail", "fork", "fork_parent_killed", "fork_child_killed", "async_kill"]
-    per = ctx.n(16, 48)
+    per = ctx.n(16, 32)
     for pr in progs:
         for j in range(per):
             how = hows[j % len(hows)]
@@ -1305,11 +1305,18 @@ def e2e_judge(ctx, progs, cases, obs):
                  sample={"e2e_case": case, "records": nrec} if ci == 0 else None)
     if not ecases:
         return
-    defs = "Definition ecases : list ecase := [\n%s\n].\n" % ";\n".join(ecases)
-    res = coq.run_cases(ctx, "cases_e2e", PRE, defs, [("violations", "bad_indices ok_e2e ecases 0")])
-    if res is None:
-        return
-    for i in coq.parse_nat_list(res["violations"])[:3]:
+    bad = []
+    CH = 120                                   # (one coqc per batch: big literal files cost more than linearly)
+
+    def batch(b0):
+        defs = "Definition ecases : list ecase := [\n%s\n].\n" % ";\n".join(ecases[b0:b0 + CH])
+        return b0, coq.run_cases(ctx, "cases_e2e_%d" % (b0 // CH), PRE, defs, [("violations", "bad_indices ok_e2e ecases 0")])
+    with concurrent.futures.ThreadPoolExecutor(max_workers=3) as ex:
+        for b0, res in ex.map(batch, range(0, len(ecases), CH)):
+            if res is None:
+                return
+            bad += [b0 + i for i in coq.parse_nat_list(res["violations"])]
+    for i in bad[:3]:
         ci, ti, tid = owner[i]
         case, ob = cases[ci], obs[ci]
         how = "finish" if "finish" in case else "sigfinish" if case.get("sigfinish") else case.get("kind") or case["how"]
